@@ -1339,6 +1339,9 @@ class Interp:
             return self.apply(f.f, list(f.args) + list(args), node, dict(f.kwargs, **kwargs))
         if isinstance(f, _Module) and f.name == "functools.partial" and args:
             return _Partial(args[0], args[1:], kwargs)
+        if isinstance(f, _Module) and f.name == "operator.attrgetter" and args and all(
+                isinstance(a, str) for a in args):
+            return _Partial(_Module("operator.<attrs>"), [tuple(args)], {})
         if isinstance(f, _Module) and f.name.startswith("operator."):
             return self.operator_call(f.name[9:], args, node)
         if isinstance(f, _Module) and f.name == "functools.reduce" and len(args) >= 2:
@@ -1463,6 +1466,8 @@ class Interp:
         raise Unsupported("builtin " + name)
 
     def get_attribute(self, obj, name, default, node):
+        if isinstance(obj, _Module) and "." in obj.name:
+            return _Module(obj.name + "." + name)
         if isinstance(obj, _Module):
             return self.ev(ast.Attribute(value=ast.Name(id=obj.name, ctx=ast.Load()),
                                          attr=name, ctx=ast.Load()), {}) \
@@ -1476,6 +1481,9 @@ class Interp:
             "floordiv": ast.FloorDiv, "mod": ast.Mod}
 
     def operator_call(self, op, args, node):
+        if op == "<attrs>" and len(args) == 2:
+            vals = tuple(self.get_attribute(args[1], nm, (), node) for nm in args[0])
+            return vals[0] if len(vals) == 1 else vals
         if op in self._OPS and len(args) == 2:
             return self.binop(self._OPS[op](), args[0], args[1], node)
         if op == "neg" and len(args) == 1:
